@@ -43,4 +43,5 @@ D2 == << <<2 * Unit, 12 * Unit, 13 * Unit, 14 * Unit>>, <<21 * Unit, 22 * Unit, 
 NoGlobals == <<>>
 StylesAll == {"suffix", "prefix", "eqtrue", "mid", "sugar"}
 Styles2 == {"prefix", "sugar"}
+Styles1 == {"suffix"}
 =============================================================================
